@@ -2,7 +2,7 @@
 # usage: tools/verify_seed.sh <seed-dir> <name>
 # seed-dir contains patch.diff and demo test file(s) named <pkgdir-with-underscores>__<file>_test.go or a meta listing.
 # Verifies in a fresh scratch worktree of /repo: demo passes without the patch, fails with it, the patched tree
-# builds and the existing suite matches the baseline; then applies the patch to /repo, runs every quick check, and undoes it.
+# builds and the existing suite matches the baseline; then runs every quick check against the patched worktree.
 set -u
 SEED="$1"; NAME="$2"
 export GOFLAGS=-mod=mod GOPROXY=off GOSUMDB=off GOTOOLCHAIN=local
@@ -43,9 +43,9 @@ bad=[k for k in b['stable_pass'] if res.get(k)!='pass']
 print('   suite: tests',len(res),'stable_pass not passing:',len(bad),bad[:5])
 PY
 rm -f /tmp/vs_$NAME.suite.json
-echo "== checks on /repo with the patch applied"
-git -C /repo apply "$SEED/patch.diff" || { echo "patch does not apply to /repo"; exit 2; }
-( cd /verif && ./bin/svcheck -all 2>/dev/null | grep "^VIOLATION\|^  finding" | cut -c1-260 )
-git -C /repo checkout -- .
-git -C /repo status --short | head -3
+echo "== checks on the patched worktree (SVCHECK_REPO; /repo itself is not touched, so that other checks can run meanwhile)"
+SV=$(mktemp -d /tmp/vs_verif.XXXX); cp /verif/properties.jsonl /verif/known_findings.jsonl "$SV/"; mkdir -p "$SV/evidence" "$SV/mutants"
+( cd /verif && SVCHECK_REPO="$WT" SVCHECK_VERIF="$SV" ./bin/svcheck -all 2>/dev/null | grep "^VIOLATION\|^  finding" | sed 's/ replay=.*//' | sort -u | cut -c1-260 )
+rm -rf "$SV"
+
 echo "== summary: without=$W0 with=$W1"
